@@ -168,6 +168,15 @@ func replay(path string) {
 			histCase(env, ops, "replay")
 		case "lit":
 			litCase(env, ts.str(), true, &skipped, "replay")
+		case "slit":
+			form := ts.next()
+			n := int(ts.num())
+			var its []litItem
+			for i := 0; i < n; i++ {
+				e := ts.next() == "e"
+				its = append(its, litItem{esc: e, r: rune(ts.num())})
+			}
+			slitCase(env, form, its, "replay")
 		case "qs":
 			s := ts.str()
 			out.Case(encStr("qs", s), printedItems(strconv.Quote(s)), true, "replay")
